@@ -134,6 +134,18 @@ class Bip32Prop(BaseProp):
             rec.h160.update(rec2.h160)
             rec.sha256.update(rec2.sha256)
             return {"prv": ob_prv, "pub": ob_pub, "or": c_oracles(rec), "err": ob_prv is None}
+        if k == "MasterRaw":
+            from btc_hd_wallet.bip32 import PrvKeyNode
+            rec = Recorder()
+            if case.get("stub"):
+                rec.prf_stub = OrdinalStub(case["stub"])
+            with rec.installed():
+                try:
+                    nd = PrvKeyNode.master_key(bytes.fromhex(case["seed"]), testnet=case["testnet"])
+                    ob = [nd.key.hex(), nd.chain_code.hex(), nd.depth, nd.index]
+                except Exception:
+                    ob = None
+            return {"ob": ob, "or": c_oracles(rec), "err": ob is None}
         if k == "Master":
             from btc_hd_wallet.bip32 import PrvKeyNode
             rec = Recorder()
@@ -157,6 +169,9 @@ class Bip32Prop(BaseProp):
                                                 cres(obs["ob"], lambda o: '("%s", "%s", %d, %d)' % tuple(o)))
         if k == "PubPriv":
             return "(PubPriv %s %s %s %s %s)" % (obs["or"], c_start(case["start"]), c_path(case["path"]), c_onode(obs["prv"]), c_onode(obs["pub"]))
+        if k == "MasterRaw":
+            return '(MasterRaw %s "%s" %s %s)' % (obs["or"], case["seed"], cbool(case["testnet"]),
+                                                  cres(obs["ob"], lambda o: '("%s", "%s", %d, %d)' % tuple(o)))
         return '(Master %s "%s" %s %s)' % (obs["or"], case["seed"], cbool(case["testnet"]), c_onode(obs["ob"]))
 
     def nontrivial_key(self, case, obs):
